@@ -7,7 +7,7 @@ OPT_QUICK_ALL = True      # every partition also in a child interpreter started 
 LEVEL = "exploration"
 TECHNIQUE = "complete enumeration of the five opcode tables, their service-action tables, the status table and all 256 opcode values against an independent T10 table"
 RULE = ("every named entry of spc/sbc/ssc/smc/mmc, every entry of every service-action table, every SCSI_STATUS entry, every pair "
-        "of sets sharing a name, every name of any set looked up on every set (refused, or the T10 value; tables unchanged afterwards), copies (copy, deepcopy) of every entry and of a command built from it, every table walked again after each assignment of another value or type to a public attribute (opcode, cdb, page_code, result, buffers) of a command built from each entry, and init_cdb for each of the 256 opcode values, also carried by OpCode objects of every shipped name (and names of the 32-byte / variable-length commands) with the entry's own service-action table. Non-trivial = the oracle has its own T10 value "
+        "of sets sharing a name, every name of any set looked up on every set (refused, or the T10 value; tables unchanged afterwards), copies (copy, deepcopy) of every entry and of a command built from it, every table walked again after each assignment of another value or type to a public attribute (opcode, cdb, page_code, result, buffers) of a command built from each entry, and init_cdb for each of the 256 opcode values, also carried by OpCode objects of every shipped name (and names of the 32-byte / variable-length commands) with the entry's own service-action table, and by objects re-pointed through the value setter from a code of each group. Non-trivial = the oracle has its own T10 value "
         "for the entry (or a length/refusal expectation for the opcode value); distinct = distinct (kind, set, name|value).")
 ASSUMPTIONS = [
     "oracle: vf/spec/opcodes.py transcribed from T10 op-num / SPC-4 / SBC-3 / SSC-4 / SMC-3 / MMC-6 / SAM-5 (cross-checked at setup against scsi/scsi.h and linux/cdrom.h)",
@@ -79,14 +79,24 @@ def check_sa(setname, key, sakey):
     return out, want is not None
 
 
-def check_init(value, name="X", sa=None):
-    """the CDB length follows from the operation code alone, whatever the OpCode object is called and whatever service actions it lists"""
+def check_init(value, name="X", sa=None, first=None):
+    """the CDB length follows from the operation code alone, whatever the OpCode object is called, whatever service actions it lists
+    and whatever code the object carried before (`first`: the object is created with that code and re-pointed through its value setter)"""
     from pyscsi.pyscsi.scsi_command import SCSICommand
     from pyscsi.pyscsi.scsi_opcode import OpCode
     want = T.cdb_length(value)
     out = []
     try:
-        cdb = SCSICommand.init_cdb(OpCode(name, value, sa or {}))
+        if first is None:
+            op = OpCode(name, value, sa or {})
+        else:
+            op = OpCode(name, first, sa or {})
+            try:
+                SCSICommand.init_cdb(op)
+            except Exception:   # noqa: BLE001
+                pass
+            op.value = value
+        cdb = SCSICommand.init_cdb(op)
         got = len(cdb)
         if want is None:
             out.append(("init_cdb/accepts", "init_cdb(opcode %#04x%s) returned %d bytes; the group has no fixed length and must be refused" % (value, "" if name == "X" else " named %r" % name, got)))
@@ -292,6 +302,10 @@ def run_partition(part, tier, seed):
             for v in range(256):
                 do(["init", v, nm, names[nm]], nontrivial=T.cdb_length(v) is None)
         acc.extra["opcode_names_tried"] = len(names)
+        # an OpCode object re-pointed from one code to another (one representative per group, and a refused one)
+        for first in (0x00, 0x28, 0x5E, 0x7F, 0x88, 0xA8, 0xC1, 0xFF):
+            for v in range(256):
+                do(["init", v, "X", {}, first], nontrivial=True)
         return acc
     unasserted = []
     n_named = 0
